@@ -1,5 +1,82 @@
-(* STUB: Spec layer for srat -- to be written *)
-From Coq Require Import NArith List.
-From ACPI Require Import Lib.Bytes Lib.Sx Spec.Layout.
+(* Spec layer for the SRAT (ACPI 6.5 5.2.16; RINTC affinity per ACPI 6.6 / RISC-V ECR), written from SPEC_NOTES.md A.2:
+   36+4 = 1, 40+8 reserved; entries from 48, header (type u8, length u8).
+   Case vocabulary (shared with the harness, component 13):
+     ctor  (oem6 tbl8 orev)                         SRAT::new(oem_id, oem_table_id, oem_revision)
+     ops   (1 pd base length (builders))            add_memory_affinity(MemoryAffinity::new(pd: u32, base: u64, length: u64) + builders)
+                builders: (1) enabled  (2) hotpluggable  (3) nonvolatile
+           (2 pd handle (builders))                 add_generic_initiator(GenericInitiator::new(pd: u32, handle) + builders)
+                handle:   (0 hid8 uid4)             Handle::new_acpi(hid, uid)
+                          (1 seg bus dev fn)        the struct literal Handle::Pci { segment, bus, device, function } (no assertion)
+                          (2 seg bus dev fn)        Handle::new_pci(segment, bus, device, function) (asserts device < 32, function < 8)
+                builders: (1) enabled  (2) architectural
+           (3 uid4 clock (builders))                add_rintc_affinity(RintcAffinity::new(uid: [u8; 4], clock_domain: u32) + builders)
+                builders: (1) enabled  (2 pd) proximity_domain(pd: u32)
+     builders are applied in list order, repetitions allowed; every op yields the event n0.
+     A PCI handle with device >= 32 or function >= 8 is outside the specification's domain (5-bit device, 3-bit function). *)
+From Coq Require Import NArith List Bool.
+From ACPI Require Import Lib.Bytes Lib.Sx Spec.Layout Spec.MadtS.
 Import ListNotations.
-Definition srat_spec : tspec := null_spec.
+Open Scope N_scope.
+
+Definition flagbit (k : N) (bs : list sx) (v : N) : N := if called k bs then v else 0.
+
+Definition srat_handle_ref (h : sx) : option (N * list N) :=      (* (handle type, 16-byte device handle) *)
+  match h with
+  | SL [SA 0; hid; uid] =>
+      match sx_bytes hid, sx_bytes uid with
+      | Some hb, Some ub =>
+          if Nat.eqb (length hb) 8 && Nat.eqb (length ub) 4
+          then option_map (fun b => (0, b)) (lay 16 (LB 0 hb ++ LB 8 ub ++ [L 12 4 0]))
+          else None
+      | _, _ => None
+      end
+  | SL [SA 1; SA seg; SA bus; SA dev; SA fn] | SL [SA 2; SA seg; SA bus; SA dev; SA fn] =>
+      if (dev <? 32) && (fn <? 8)
+      then option_map (fun b => (1, b)) (lay 16 [L 0 2 seg; L 2 1 bus; L 3 1 (dev * 8 + fn); L 4 12 0])
+      else None
+  | _ => None
+  end.
+
+Definition srat_entry_ref (o : sx) : option (list N) :=
+  match o with
+  | SL [SA 1; SA pd; SA base; SA len; SL bs] =>       (* Memory Affinity *)
+      let flags := flagbit 1 bs 1 + flagbit 2 bs 2 + flagbit 3 bs 4 in
+      lay 40 [L 0 1 1; L 1 1 40; L 2 4 pd; L 6 2 0; L 8 4 (base mod 2 ^ 32); L 12 4 (base / 2 ^ 32);
+              L 16 4 (len mod 2 ^ 32); L 20 4 (len / 2 ^ 32); L 24 4 0; L 28 4 flags; L 32 8 0]
+  | SL [SA 2; SA pd; h; SL bs] =>                     (* Generic Initiator Affinity *)
+      match srat_handle_ref h with
+      | Some (ty, hb) =>
+          let flags := flagbit 1 bs 1 + flagbit 2 bs 2 in
+          lay 32 ([L 0 1 5; L 1 1 32; L 2 1 0; L 3 1 ty; L 4 4 pd] ++ LB 8 hb ++ [L 24 4 flags; L 28 4 0])
+      | None => None
+      end
+  | SL [SA 3; uid; SA clock; SL bs] =>                (* RINTC Affinity *)
+      match sx_bytes uid with
+      | Some ub =>
+          if Nat.eqb (length ub) 4
+          then lay 20 ([L 0 1 7; L 1 1 20; L 2 2 0; L 4 4 (arg0 2 bs)] ++ LB 8 ub ++ [L 12 4 (flagbit 1 bs 1); L 16 4 clock])
+          else None
+      | None => None
+      end
+  | _ => None
+  end.
+
+Definition srat_entries_ref (ops : list sx) : option (list (list N)) := opt_concat (map srat_entry_ref ops).
+
+Definition srat_image (ctor : sx) (ops : list sx) : option (list N) :=
+  match ctor with
+  | SL [o; t; r] =>
+      match sx_hdr_args o t r, srat_entries_ref ops with
+      | Some h, Some es => Some (ref_table [83; 82; 65; 84] 1 h (le 4 1 ++ le 8 0 ++ concat es))   (* "SRAT", revision 1 (crate) *)
+      | _, _ => None
+      end
+  | _ => None
+  end.
+
+Definition srat_spec : tspec := {|
+  ts_image := srat_image;
+  ts_walk := Some (48%nat, H_u8_u8);
+  ts_entries := fun _ ops => option_map (map (fun e => (nth 0 e 0, length e))) (srat_entries_ref ops);
+  ts_counts := fun _ => [];
+  ts_returns := fun _ => false
+|}.
